@@ -14,7 +14,7 @@
        status     (short-circuits the inner handlers)                       status/status.go
        mime                              (transparent: sets a header)
        templates  (ResponseBuffer, `code >= 300 || err` early return that passes a buffered
-                   3xx response on, http.ServeContent with the buffered status) templates/templates.go
+                   response on unless code >= 400, http.ServeContent with the buffered status) templates/templates.go
        innermost handler = script over {Header().Set, WriteHeader, Write, Flush, panic}
                            followed by `return status, err`.
 
@@ -326,8 +326,9 @@ Definition templates_on (m : tmode) (inner : st -> hres) (x : st) : hres :=
     | HPan y => HPan y
     | HRet code e y =>
         if b_stream y || (300 <=? code) || e then
-          (* not a template to execute; a buffered 3xx response is passed on *)
-          if (300 <=? code) && (code <? 400) && negb e then
+          (* not a template to execute; what was buffered is passed on, unless the status
+             asks for an error response *)
+          if code <? 400 then
             match b_write_buffered y with Done z => HRet code e z | Pan z => HPan z end
           else HRet code e y
         else if contains (b_buf y) TPL_OPEN then HRet 500 true y    (* template does not parse *)
